@@ -1,6 +1,7 @@
 package main
 
 import (
+	"os"
 	"fmt"
 	"go/token"
 	"strings"
@@ -99,8 +100,14 @@ func ruleG1(c *Ctx, id string) {
 			if o.Kind != "Int" || !o.Put {
 				continue
 			}
-			if k, ok := constInt(stripConv(o.Src)); ok {
+			var k int64
+			if os.Getenv("NFSVERIF_DEBUG") != "" {
+				fmt.Fprintf(os.Stderr, "DEBUG G1 sym=%q\n", o.Sym)
+			}
+			if _, err := fmt.Sscanf(o.Sym, "%d", &k); err == nil && fmt.Sprint(k) == o.Sym {
 				consts = append(consts, k)
+			} else if k2, ok := constInt(stripConv(o.Src)); ok {
+				consts = append(consts, k2)
 			} else {
 				consts = append(consts, -1)
 			}
